@@ -82,3 +82,7 @@ Definition pmt_psi (streams : list PMTElementaryStream) (pcr version : Z) : PSID
 
 (* PIDs an automatically assigned PID must avoid *)
 Definition auto_pid_ok (pid : Z) : Prop := C_startPID <= pid <= 8190 /\ pid <> C_pmtStartPID.
+
+(* all counters of the payload packets the Muxer emitted on a PID over a run *)
+Definition emitted_ccs (pid : Z) (evs : list (mop * part)) : list Z :=
+  concat (map (fun e => payload_ccs pid (muxer_pkts (fst e) (snd e))) evs).
